@@ -41,7 +41,7 @@ func (iv *c17Inv) keys() []int {
 
 func genC17(c *Ctx) error {
 	c.ShardSize = 150
-	c.Notes["rule"] = "one token chaincode instance; 2-3 invocations, each on its own goroutine with its own simulated transaction: an immediate method (also behind an argument whose decoding is a switch point of its own), a query with the same body (it reports in whose transaction it finds itself at every step), batchExecute with one or two pending transactions, executeTasks with one or two tasks, swapDone whose completion listener runs with the context swapDone installed; every body re-obtains its context (GetStub) 1-3 times, reads its own previous write and writes a key, and is parked before each of these points; a scheduler releases the parked invocations in a random order (all interleavings of the switch points are reachable, nested and overlapping lifetimes). Observed per invocation: status, payload, complete write-set, event - compared with the same proposal run alone over the same committed state - and the keys that landed in its write-set. Non-trivial: the lifetimes of at least two invocations overlap."
+	c.Notes["rule"] = "one token chaincode instance; 2-3 invocations, each on its own goroutine with its own simulated transaction: an immediate method (also behind an argument whose decoding is a switch point of its own), a query with the same body (it reports in whose transaction it finds itself at every step), batchExecute with one or two pending transactions, executeTasks with one or two tasks, swapDone whose completion listener runs with the context swapDone installed; every body re-obtains its context (GetStub) 1-3 times, reads its own previous write and writes a key, and is parked before each of these points; a scheduler releases the parked invocations in a random order (all interleavings of the switch points are reachable, nested and overlapping lifetimes). Observed per invocation: status, payload, complete write-set, event - compared with the same proposal run alone over the same committed state - and the keys that landed in its write-set. Half of the instances have served a few refused requests (failing method, undecodable argument, failing task) before. Non-trivial: the lifetimes of at least two invocations overlap."
 	n := c.N(150, 3000)
 	for i := 0; i < n; i++ {
 		if i == n/2 {
@@ -237,6 +237,25 @@ func c17Case(c *Ctx) error {
 	acc := w.NewAccount(fpb.KeyType_ed25519)
 	w.SetBalance("tt", balance.BalanceTypeToken, acc.AddrString(), "", big.NewInt(1000))
 	nonce := uint64(1700000000000)
+	if rng.Intn(2) == 0 {
+		// the instance has already served requests, some refused (a method that fails, an argument that does not
+		// decode, an unknown method, a failing task): none of them is in flight any more
+		for k := 1 + rng.Intn(3); k > 0; k-- {
+			switch rng.Intn(4) {
+			case 0:
+				w.Peer.Invoke("tt", w.Client.Creator, "balanceOf", "not an address")
+			case 1:
+				w.Peer.Invoke("tt", w.Client.Creator, "qScript", "fail,earlier")
+			case 2:
+				w.Peer.Invoke("tt", w.Client.Creator, "allowedBalanceOf", acc.AddrString())
+			default:
+				nonce++
+				req := w.SignedArgs("tt", "script", acc, strconv.FormatUint(nonce, 10), "fail,earlier")
+				w.ExecTasks("tt", w.Robot.Creator, []*fpb.Task{{Id: w.Peer.NextTxID(), Method: "script", Args: req}})
+			}
+		}
+		c.Count("instance_served_refused_requests_before")
+	}
 	nInv := 2 + rng.Intn(2)
 	var invs []*c17Inv
 	tagSeq := 0
